@@ -53,6 +53,8 @@ struct Case {
     fields: Vec<(FT, FA)>,
     gmode: GMode,
     with_partial_eq: bool,
+    /// `Hash` is derived as well; every field then carries `#[hash(ignore)]` (which must not exempt it from the Eq check)
+    with_hash: bool,
     entry: Entry,
 }
 
@@ -130,7 +132,14 @@ fn gen(ch: &mut Ch, thorough: bool) -> Option<Case> {
     if with_partial_eq && gmode != GMode::Default {
         return None;
     }
+    let with_hash = ch.flag();
+    if with_hash && (!with_partial_eq || has_t || (n > 1 && dev > 1)) {
+        return None;
+    }
     let entry = *ch.of(&Entry::BOTH);
+    if with_hash && entry == Entry::Derive {
+        return None;
+    }
     if entry == Entry::Derive && (n > 1 && !thorough) {
         return None;
     }
@@ -143,7 +152,7 @@ fn gen(ch: &mut Ch, thorough: bool) -> Option<Case> {
     if n == 3 && (container == 1 || with_partial_eq || entry == Entry::Derive) {
         return None;
     }
-    Some(Case { vector: ch.vector(), container, fields, gmode, with_partial_eq, entry })
+    Some(Case { vector: ch.vector(), container, fields, gmode, with_partial_eq, with_hash, entry })
 }
 
 fn program(c: &Case) -> (String, String) {
@@ -155,7 +164,8 @@ fn program(c: &Case) -> (String, String) {
             FT::F32 => "f32",
             FT::T => "T",
         };
-        FieldDef::tuple(ty).attr(&attr_text(*ft, *fa).unwrap())
+        let f = FieldDef::tuple(ty).attr(&attr_text(*ft, *fa).unwrap());
+        if c.with_hash { f.attr("#[hash(ignore)]") } else { f }
     }).collect();
     let item = match c.container {
         0 => ItemDef::strukt("X", g, FieldsDef::of(false, fs)),
@@ -167,7 +177,7 @@ fn program(c: &Case) -> (String, String) {
         GMode::Empty => "Eq(bound())".to_string(),
         GMode::PartialEqOnly => "Eq(bound(T: ::core::cmp::PartialEq))".to_string(),
     };
-    let list = if c.with_partial_eq { format!("{eq_arg}, PartialEq") } else { eq_arg };
+    let list = if c.with_hash { format!("{eq_arg}, PartialEq, Hash") } else if c.with_partial_eq { format!("{eq_arg}, PartialEq") } else { eq_arg };
     let head = match c.entry {
         Entry::Attr => format!("#[derive_ex({list})]"),
         Entry::Derive => format!("#[derive(Ex)]\n#[derive_ex({list})]"),
@@ -221,6 +231,7 @@ pub fn run(ctx: &Ctx, rep: &mut Report) {
             atoms.insert(format!("entry={}", c.entry.name()));
             atoms.insert(format!("gmode={:?}", c.gmode));
             atoms.insert(format!("with_partial_eq={}", c.with_partial_eq));
+            atoms.insert(format!("with_hash={}", c.with_hash));
             for (ft, fa) in &c.fields {
                 atoms.insert(format!("field={:?}/{:?}", ft, fa));
             }
